@@ -617,6 +617,9 @@ func (x Expr) Get(data any) (results []any) {
 				if start < 0 {
 					start = len(tv) + start
 					if start < 0 {
+						if step < 0 { // walking down from before the first element
+							continue
+						}
 						start = 0
 					}
 				}
@@ -692,6 +695,9 @@ func (x Expr) Get(data any) (results []any) {
 				if start < 0 {
 					start = size + start
 					if start < 0 {
+						if step < 0 { // walking down from before the first element
+							continue
+						}
 						start = 0
 					}
 				}
@@ -766,6 +772,9 @@ func (x Expr) Get(data any) (results []any) {
 				if start < 0 {
 					start = len(tv) + start
 					if start < 0 {
+						if step < 0 { // walking down from before the first element
+							continue
+						}
 						start = 0
 					}
 				}
@@ -1470,6 +1479,9 @@ func (x Expr) FirstFound(data any) (any, bool) {
 				if start < 0 {
 					start = len(tv) + start
 					if start < 0 {
+						if step < 0 { // walking down from before the first element
+							continue
+						}
 						start = 0
 					}
 				}
@@ -1539,6 +1551,9 @@ func (x Expr) FirstFound(data any) (any, bool) {
 				if start < 0 {
 					start = size + start
 					if start < 0 {
+						if step < 0 { // walking down from before the first element
+							continue
+						}
 						start = 0
 					}
 				}
@@ -1607,6 +1622,9 @@ func (x Expr) FirstFound(data any) (any, bool) {
 				if start < 0 {
 					start = len(tv) + start
 					if start < 0 {
+						if step < 0 { // walking down from before the first element
+							continue
+						}
 						start = 0
 					}
 				}
@@ -1981,6 +1999,9 @@ func reflectGetSlice(data any, start, end, step int) (va []any) {
 			if start < 0 {
 				start = size + start
 				if start < 0 {
+					if step < 0 { // walking down from before the first element
+						return
+					}
 					start = 0
 				}
 			}
